@@ -215,6 +215,11 @@ def _check_zone(r, b):
     if b[0] == "f":
         if r.tzinfo is not D.tzobj(b) and r.tzinfo.utcoffset(None) != D.tzobj(b).utcoffset(None):
             return "err WrongZone"
+        # the reported name of a fixed offset: sign and |offset| in whole minutes, written independently of FixedTimezone.__init__
+        sec = int(b[1:]) // US
+        want = "%s%02d:%02d" % ("-" if sec < 0 else "+", abs(sec) // 60 // 60, abs(sec) // 60 % 60)
+        if r.timezone_name != want and not (sec == 0 and r.timezone_name == "UTC"):
+            return "err WrongZoneName:" + str(r.timezone_name)
     else:
         if r.timezone_name != D.zname(b) or r.tzinfo is not D.tzobj(b):
             return "err WrongZone"
@@ -302,6 +307,11 @@ def _impl(op, backend):
             return "err WrongType"
         if kind in ("pendulum", "zoneinfo", "pytz") and r.timezone_name != D.zname(z):
             return "err WrongZone"
+        if kind == "timezone":
+            sec = off // US
+            want = "UTC" if sec == 0 else "%s%02d:%02d" % ("-" if sec < 0 else "+", abs(sec) // 60 // 60, abs(sec) // 60 % 60)
+            if off % US == 0 and r.timezone_name != want:
+                return "err WrongZoneName:" + str(r.timezone_name)
         return D.outv(r)
     raise ValueError(k)
 
